@@ -72,6 +72,9 @@ func c01Env() *env.Env {
 var c01BoundaryFuncs = map[string]interface{}{
 	"b_arr2":   func(a [2]int64) int64 { return a[0] },
 	"b_arr0":   func(a [0]string) int64 { return 0 },
+	"b_arr4":   func(a [4]int64) int64 { return a[3] },
+	"b_parr2":  func(a *[2]int64) int64 { return a[1] },
+	"b_slparr": func(a []*[2]int64) int64 { return int64(len(a)) },
 	"b_arrarr": func(a [2][1]int64) int64 { return a[1][0] },
 	"b_slarr":  func(a [][2]int64) int64 { return int64(len(a)) },
 	"b_map":    func(a map[string]int64) int64 { return int64(len(a)) },
@@ -98,7 +101,7 @@ var c01BoundaryValues = []string{
 	"nil", "true", "0", "-1", "300", "9223372036854775807", "1.5", "1e300", "-1e19", "\"\"", "\"a\"", "\"ab\"", "[]", "[1]", "[1, 2]", "[1, 2, 3]", "[1, \"x\"]", "[nil, nil]",
 	"[[1], [2]]", "[[1, 2], [3]]", "[[1, 2, 3]]", "{}", "{\"a\": 1}", "{\"a\": [1, 2]}", "{1: [\"x\", \"y\"]}", "{\"a\": nil}", "func() { }", "func(a) { return a }",
 	"func(a...) { return a }", "func(a, b) { return a, b }", "func(a) { throw \"in callback\" }", "func(a) { return \"s\" }", "func(a) { return nil }", "n", "fl", "str", "list", "dict", "ints", "strs",
-	"ch", "nilptrs", "nilptrs[0]", "pt", "add", "boom", "mod", "new(int64)", "new(string)", "make(chan int64, 1)", "make([]int64, 2)", "make(map[string]int64)", "make(struct { A int64 })", "&n",
+	"ch", "nilptrs", "nilptrs[0]", "pt", "add", "boom", "mod", "new(int64)", "new(string)", "make(chan int64, 1)", "make([]int64, 2)", "make([]int64, 1)", "make([]int64, 0)", "make([]int64, 5)", "make([]int32, 1)", "[make([]int64, 1)]", "make(map[string]int64)", "make(struct { A int64 })", "&n",
 }
 
 // c01Child runs the programs of a file one by one, reporting progress on stdout
